@@ -71,7 +71,9 @@ def run(tier, seed):
     sparse = S("Maize", "Loam", seed=seed + 30, seasons=2, co2={"co2_data": [[1990, 355.0], [2000, 369.5], [2003, 378.0], [2010, 390.0]]})
     # (a water table interpolated between observations of which the last lies BEYOND both end dates: its depth on a day is a function of the dates)
     gwvar = S("Maize", "Loam", seed=seed + 31, seasons=2, gw={"water_table": "Y", "method": "Variable", "dates": ["2000/12/01", "2001/07/01", "2004/06/01"], "values": [2.2, 0.9, 1.8]})
-    for sc in cal[:3] + anyc[2:4] + [sparse, gwvar]:
+    # (a crop whose aeration / minimum-rooting parameters differ from the fallow filler's, fallow days before planting, wet heavy soil)
+    aer = S("Barley", "Clay", seed=seed + 32, seasons=2, lead=20, regime="wet")
+    for sc in cal[:3] + anyc[2:4] + [sparse, gwvar, aer]:
         a = len(jobs)
         jobs.append({"kind": "plain", "scenario": sc})
         for ext in ([1, 200, 365] if tier == "thorough" else [1, 365]):
